@@ -115,7 +115,16 @@ def culture_facts(cname: str) -> dict:
     except Exception:  # noqa: BLE001
         era_ok = False
     digits_in_names = any(any(ch.isdigit() for ch in (x or "")) for tbl in (fi.long_month_names, fi.short_month_names, fi.long_day_names, fi.short_day_names) for x in tbl)
+    def forms(*tables):
+        return sorted({x.casefold() for tbl in tables for x in tbl if x})
+
     return {
+        "names": {
+            ("M", 4): forms(fi.long_month_names, fi.long_month_genitive_names),
+            ("M", 3): forms(fi.short_month_names, fi.short_month_genitive_names),
+            ("d", 4): forms(fi.long_day_names),
+            ("d", 3): forms(fi.short_day_names),
+        },
         "MMMM": distinct(fi.long_month_names) and distinct(fi.long_month_genitive_names),
         "MMM": distinct(fi.short_month_names) and distinct(fi.short_month_genitive_names),
         "dddd": distinct7(fi.long_day_names),
@@ -197,6 +206,15 @@ def applicable(t: str, pattern: str, cname: str, value) -> str | None:
         if tok[0] == "field":
             letter, count = tok[1]  # type: ignore[misc]
             text_field = (letter == "M" and count >= 3) or (letter == "d" and count >= 3) or letter in "tgc"
+            if (letter, count) in facts["names"] and i + 1 < len(toks) and toks[i + 1][0] == "lit":
+                # one form of a name continued by the following literal spells another form of a name
+                # (hsb: "apr" + "." vs the genitive "apr."): the produced text is inherently ambiguous
+                lit = str(toks[i + 1][1])
+                lit = facts["sep_time"] if lit == ":" else facts["sep_date"] if lit == "/" else lit
+                ch = lit[:1].casefold()
+                nm = facts["names"][(letter, count)]
+                if ch and any(b != a and b.startswith(a) and b[len(a)] == ch for a in nm for b in nm):
+                    return "name-extended-by-following-literal"
             if text_field and i + 1 < len(toks) and toks[i + 1][0] == "lit" and str(toks[i + 1][1])[:1].isalpha():
                 return "text-field-followed-by-letters"
             if text_field and i > 0 and toks[i - 1][0] == "lit" and str(toks[i - 1][1])[-1:].isalpha():
@@ -263,6 +281,14 @@ def pyo_date(cid: str, y: int, m: int, d: int):
 
 
 # ---------------------------------------------------------------------------------------------------------------
+
+
+def dot_literal_before_fraction(lib_pattern: str) -> bool:
+    """True when an optional fraction (F...) directly follows text that ends in '.' but is not the pattern's own
+    decimal separator: a quoted / escaped dot, or a separator that stands outside the embedded pattern holding the F."""
+    import re
+
+    return bool(re.search(r"(\.'|\\\.|[.;]lt<)F", lib_pattern)) or bool(re.search(r"[.;]'F", lib_pattern))
 
 
 def build_pattern(t: str, pattern: str, cname: str, value, tmpl):
@@ -352,6 +378,10 @@ def _k_fpf(c) -> CaseInfo:
         invariant_std = {"date": "Rr", "datetime": "oOrRsS"}.get(t, "")
         if len(pattern) == 1 and pattern in invariant_std and (tmpl is not None or getattr(getattr(v, "calendar", None), "id", "ISO") != "ISO"):
             raise Mismatch(f"standard-invariant-pattern-ignores-template/{t}", f"{t} {lib_pattern!r} {T.describe(t, v)} -> {text!r}: {r.exception}")
+        if dot_literal_before_fraction(lib_pattern):
+            # an empty optional fraction removes a preceding '.' from the output whoever wrote it - also one that came
+            # from a quoted literal, an escape, the culture's separator or the enclosing pattern of an embedded lt<>
+            raise Mismatch("format-then-parse-fails/literal-dot-eaten-by-empty-fraction", f"{t} {lib_pattern!r} [{cname}] {T.describe(t, v)} -> {text!r}: {r.exception}")
         raise Mismatch(f"format-then-parse-fails/{t}", f"{t} {lib_pattern!r} [{cname}] {T.describe(t, v)} -> {text!r}: {r.exception}")
     back = r.value
     text2 = p.format(back)
@@ -516,6 +546,21 @@ PANEL = {
 }
 
 
+def task_witness(ctx: Ctx) -> None:
+    """Fixed witnesses of the recorded open findings (so that each of them is met, and reported as KNOWN-FINDING, on
+    every run), next to their nearest passing neighbours."""
+    for case in (
+        {"type": "time", "pattern": "HH'.'FF", "culture": "", "value": {"ns": 0}},
+        {"type": "time", "pattern": "HH'.'FF", "culture": "", "value": {"ns": 120000000}},
+        {"type": "time", "pattern": "HH.FF", "culture": "", "value": {"ns": 0}},
+        {"type": "datetime", "pattern": "ld<uuuu-MM-dd>;lt<FF>", "culture": "", "value": {"cal": "ISO", "n": 0, "ns": 0}},
+        {"type": "offset", "pattern": "-HH:mm", "culture": "", "value": {"s": -1}},
+        {"type": "date", "pattern": "R", "culture": "", "value": {"cal": "Persian Simple", "n": 0}},
+        {"type": "datetime", "pattern": "o", "culture": "", "value": {"cal": "Persian Simple", "n": 0, "ns": 0}},
+    ):
+        ctx.case("fpf", case)
+
+
 def task_cultures(ctx: Ctx, cultures: list[str], seed: int) -> None:
     """Every culture is visited for every type with a fixed panel of patterns and a few values."""
     vals = {
@@ -539,6 +584,7 @@ def tasks(tier: str, seed: int) -> list[Task]:
     k = 10
     for j in range(k):
         out.append(Task("task_cultures", {"cultures": names[j::k], "seed": seed}, f"cultures-{j}"))
+    out.append(Task("task_witness", {}, "witness"))
     for i in range(14):
         cults = [""] + [names[sub_seed(seed, "c07c", i, q) % len(names)] for q in range(40)]
         out.append(Task("task_hyp", {"shard": i, "n": 5000 if not thorough else 60000, "cultures": cults}, f"hyp-{i}"))
